@@ -442,9 +442,9 @@ def gen_names(rng, n, allow_hash, allow_sub, friendly=False, multi=False, high=F
             for _ in range(rng.choice([1, 1, 1, 2])):
                 name += b"/" + component(rng, allow_hash, alts)
         sub = allow_sub and rng.random() < (0.45 if b"/" in name else 0.3)
-        if sub and alt_before_hash(name) and rng.random() < 0.85:
-            # see ASSUMPTIONS: such a name is mostly generated as a leaf; now and then as a sub-tree, which
-            # is the known finding index-behind-alternatives (classified, KNOWN-FINDING line)
+        if sub and alt_before_hash(name):
+            # see ASSUMPTIONS: such a name is generated as a leaf only; as a sub-tree it is the known
+            # finding index-behind-alternatives, whose witness runs from corpus/C04/findings.txt
             sub = False
         if sub:
             name += b"/"
